@@ -140,9 +140,13 @@ func c05Body(c *mc.Ctx) {
 	}
 	// L1: symbol-table histories
 	cat = c10Catalogs[c.Pick("catalog", len(c10Catalogs))]
+	// the first c05Core events are the original alphabet; the quick tier draws a fourth event from those only
+	const c05Core = 21
 	events := c10Events
+	core := c05Core
 	if !srcBinary {
-		events = append(append([]c10Event{}, c10Events...), c05TextEvents...)
+		events = append(append(append([]c10Event{}, c10Events[:c05Core]...), c05TextEvents...), c10Events[c05Core:]...)
+		core += len(c05TextEvents)
 	}
 	var names []string
 	maxEvents := 4
@@ -155,6 +159,8 @@ func c05Body(c *mc.Ctx) {
 		var k int
 		if i == 0 {
 			k = c.Shard("event", len(events)+1)
+		} else if i == 3 && c.Tier != "thorough" {
+			k = c.Pick("event", core+1)
 		} else {
 			k = c.Pick("event", len(events)+1)
 		}
@@ -224,6 +230,13 @@ func c05Run(c *mc.Ctx, data []byte, want []*rm.Value, cat c10Cat, dst int, srcBi
 		return fmt.Sprintf("src=text %q catalog=%s [%s] dst=%s", clipBytes(data, 120), cat.name, what, modeNames[dst])
 	})
 	c.Class(modeNames[dst] + "/" + cat.name)
+	// shrinking stays inside the family: the known defect (symbols whose text the source does not
+	// know) cannot absorb a new one on ordinary documents
+	if hasUnknownSym(want) {
+		c.Family("unknown-text")
+	} else {
+		c.Family("plain")
+	}
 	var out bytes.Buffer
 	var cerr, ferr error
 	calls := 0
@@ -274,7 +287,7 @@ func init() {
 		Rule: "source documents written by the REFERENCE printer/encoder in text and binary: (L0) the whole C01 value generator (every scalar x annotation set x context, pairs, shapes, boundary lengths, symbol-count boundaries); (L1) EVERY sequence of <=4 events over the C10 alphabet (version markers, replacing / importing / appending symbol tables with every max_id case, values using boundary SIDs as field name, annotation and symbol value, nested table-shaped structs) plus text-only events with symbols by text including '$5' and '$10', under 5 catalogs (documents that use a symbol whose text the source does not know are judged for sequences of <=3 events only, L2); " +
 			"each copied by the documented copy loop (field name, annotations, typed null or value by type, recursing) into a text, pretty and binary Writer. Oracle: the independent decoder reads the output and it must denote the values the reference context machine assigns to the source, symbols compared by text; a symbol whose text the source does not know may end in an error or stay unknown but must not acquire a known text. " +
 			"non-trivial = copy finished and the output was decoded and compared; distinct = distinct (destination, catalog, output bytes) digests",
-		Bounds:      map[string]string{"quick": "L0 layers A-E; L1 sequences of <=4 events", "thorough": "same (complete below the bound)"},
+		Bounds:      map[string]string{"quick": "L0 layers A-E; L1 sequences of <=4 events, the fourth drawn from the first 21 (+2 text) events of the 29-event alphabet", "thorough": "L1 sequences of <=4 events over the whole alphabet"},
 		Assumptions: []string{"source streams the reference context machine rejects, and tables with undefined local slots (known C10 finding), are out of scope here"},
 		Body:        c05Body,
 		Tiers:       map[string]mc.Tier{"quick": {}, "thorough": {}},
